@@ -73,6 +73,31 @@ theorem outer_mac_region (P : Prims) (m : Msg) (buf : Bytes) (hlen : buf.length 
   simp only [OuterRef] at hh
   exact ⟨hh.2.2.2.2.2.2.2.2.2.2.1, hh.2.2.2.2.2.2.2.2.1, hh.2.2.2.2.2.2.2.2.2.2.2.1⟩
 
+/-- **`Cred.zipLength` (the model's reading of the compression header) is the translated `zip_decompress_length`** on the same
+    bytes, for every byte string. -/
+theorem zipLength_is_the_code (src : Bytes) (hlen : src.length ≤ 2147483647) :
+    zipLength src = (zip_decompress_length 0 src.length (bufOf src)).ret := by
+  rw [Munge.C08Unpack.zip_length_spec 0 src.length (bufOf src) ⟨by omega, by omega⟩]
+  unfold zipLength
+  by_cases h8 : src.length < 8
+  · have : (src.length : Int) < 8 := by omega
+    simp [h8, this]
+  · have h8' : ¬ (src.length : Int) < 8 := by omega
+    have e0 := rd32_bufOf (b := src) (k := 0) (j := 0) rfl (by omega)
+    have e4 := rd32_bufOf (b := src) (k := 4) (j := 4) rfl (by omega)
+    simp only [List.drop_zero] at e0
+    rw [if_neg h8]
+    simp only [h8', false_or]
+    rw [← e0, ← e4]
+    have hz : Munge.Gen.Dec.ZIP_MAGIC.toNat = 3402287818 := by decide
+    have hz2 : ZIP_MAGIC = 3402287818 := rfl
+    rw [hz, hz2]
+    by_cases hmag : rd32 (List.take 4 src) = 3402287818
+    · have : (rd32 (List.take 4 src) : Int) = 3402287818 := by omega
+      simp [hmag, this]
+    · have : ¬ (rd32 (List.take 4 src) : Int) = 3402287818 := by omega
+      simp [hmag, this]
+
 /-- non-vacuity: a 42-byte credential body on which both sides succeed -/
 example : ∃ r, unpackOuter Munge.ToyPrims.prims {} ([3, 0, 5, 0, 2, 97, 98] ++ List.replicate 32 7 ++ [1, 2, 3]) = .ok r :=
   (outer_accepts_iff _ _ _ (by decide)).mpr (by decide +kernel)
